@@ -9,13 +9,13 @@ log=/tmp/seedrun_${sid}_${prop}.log
 if [ "${SEED_INPLACE:-0}" = "1" ]; then
   cd /repo || exit 2
   git diff --quiet || { echo "/repo has uncommitted changes; refusing"; exit 2; }
-  git apply $V/seeded/$sid/patch.diff || { echo "patch does not apply"; exit 2; }
+  (git apply $V/seeded/$sid/patch.diff || patch -p1 -F3 -s < $V/seeded/$sid/patch.diff) || { echo "patch does not apply"; exit 2; }
   (cd $V && python3 tools/check.py $prop --tier $tier > $log 2>&1); rc=$?
   git -C /repo checkout -- .
 else
   wt=/tmp/sr_${sid}_$$
   git -C /repo worktree add --detach $wt HEAD >/dev/null 2>&1 || exit 2
-  (cd $wt && git apply $V/seeded/$sid/patch.diff) || { echo "patch does not apply"; git -C /repo worktree remove --force $wt; exit 2; }
+  (cd $wt && (git apply $V/seeded/$sid/patch.diff 2>/dev/null || patch -p1 -F3 -s < $V/seeded/$sid/patch.diff)) || { echo "patch does not apply"; git -C /repo worktree remove --force $wt; exit 2; }
   (cd $V && VERIF_REPO=$wt python3 tools/check.py $prop --tier $tier > $log 2>&1); rc=$?
   git -C /repo worktree remove --force $wt
 fi
